@@ -21,6 +21,17 @@ func suiteSched(rn *runner, r *rng, tier string) {
 	if tier == "thorough" {
 		n = 4000
 	}
+	// handle chains (suite_chain.go): the two stages run concurrently again and again on one handle kept by value, after
+	// runs in which stage 2 gave up early or late — whatever one run leaves in the shared state must not reach the next
+	{
+		nh := 150
+		if tier == "thorough" {
+			nh = 3000
+		}
+		for i := 0; i < nh; i++ {
+			handleChainCase(rn, r.fork(), 3+r.intn(8), "sched")
+		}
+	}
 	slots, _, _ := simdjson.VerifRing()
 	defer func() { simdjson.VerifHook = nil }()
 	oldProcs := runtime.GOMAXPROCS(0)
